@@ -210,8 +210,20 @@ func ruleC08(c *Ctx) {
 	// ---- TERM-COUNT
 	gcf := w.fn("transform/codon", "getCodonFrequency")
 	ot := w.method("transform/codon", "Table", "OptimizeTable")
-	if gcf == nil || ot == nil {
-		c.missing("TERM-COUNT", "getCodonFrequency/OptimizeTable", "codon.getCodonFrequency and Table.OptimizeTable")
+	if ot == nil {
+		c.missing("TERM-COUNT", "Table.OptimizeTable", "exported method codon.Table.OptimizeTable")
+		return
+	}
+	if gcf == nil {
+		// by role: the same-package function OptimizeTable calls that returns the codon counts
+		for _, g := range family(ot) {
+			if g != ot && g.Signature.Results().Len() == 1 && tname(g.Signature.Results().At(0).Type()) == "map[string]int" {
+				gcf = g
+			}
+		}
+	}
+	if gcf == nil {
+		c.missingHelper("TERM-COUNT", "codon counter", "the function behind OptimizeTable that counts codons")
 		return
 	}
 	c.useFn(gcf)
@@ -282,7 +294,7 @@ func ruleC08(c *Ctx) {
 		c.judge(st, "TERM-COUNT", "getCodonFrequency:+1 per complete window", gcf.Pos(), "each complete 3-letter window increments its own count by exactly one", why)
 	}
 	// OptimizeTable: the only stores through the table are Weight := freq(ToUpper(sequence))[Triplet]
-	freq := "call[poly/transform/codon.getCodonFrequency](call[strings.ToUpper](param[1]))"
+	freq := "call[" + fname(gcf) + "](call[strings.ToUpper](param[1]))"
 	type wst struct {
 		f  *ssa.Function
 		st *ssa.Store
@@ -308,7 +320,7 @@ func ruleC08(c *Ctx) {
 		if tgt != "Codon.Weight" {
 			st, why = broken, "OptimizeTable stores into "+tgt+" of the table; only Codon.Weight may change (the codon-to-amino-acid assignment must stay untouched)"
 		} else if ws.f == ot {
-			otb := newDeepTB(ot, "poly/transform/codon.getCodonFrequency")
+			otb := newDeepTB(ot, fname(gcf))
 			a := otb.T(ws.st.Addr).String()
 			v := otb.T(ws.st.Val)
 			wantV := "lookup(" + freq + ", field[Triplet](each(field[Codons](each(field[AminoAcids](param[0]))))))"
